@@ -276,4 +276,19 @@ theorem lineReader_cap (s : Bytes) : ∀ l ∈ (XC.C46.bodyLines s).1, l.length 
              | (rename_i hle; simp only [gt_iff_lt, Nat.not_lt] at hle; exact hle)
            · exact ihr l hl')
 
+/-! ## non-vacuity: concrete inputs satisfying the hypotheses of the theorems above -/
+
+example : readLength [200, 5, 9] = .ok (2245, false, [9]) := by simp [readLength]
+example : readLength [0xE3, 1] = .ok (8, true, [1]) := by simp [readLength]          -- a partial length (2^3)
+example : ∃ k, 1 ≤ k ∧ k ≤ 5 ∧ ([9] : Bytes) = ([200, 5, 9] : Bytes).drop k :=
+  readLength_consumes (s := [200, 5, 9]) (n := 2245) (p := false) (by simp [readLength])
+example : 0 < 8 := partial_chunk_pos (s := [0xE3, 1]) (r := [1]) (by simp [readLength])
+example : (readHeader [0xCB, 2, 1, 2, 0xC0]).toOption.map (·.rest) = some [1, 2, 0xC0] := by decide
+example : readMPI [0, 9, 1, 2, 3] = .ok ([1, 2], 9, [3]) := by simp [readMPI]
+example : subLen (encSubLen 300 ++ [7]) = some (300, [7]) := subpacket_len_forms 300 (by decide) [7]
+example : nextSigSub [2, 0x90, 7, 5] = .ok (0x10, true, [7], [5]) := by simp [nextSigSub, subLen]; decide
+example : C45K.readToNext [.uid 1, .eUnsup, .key 2 false, .uid 2] = .ok [.key 2 false, .uid 2] := by
+  simp [C45K.readToNext, C45K.next]
+example : C45K.headNotPrimary [.uid 1, .eUnsup, .key 2 false, .uid 2] = true := by decide
+
 end XC.C45
